@@ -124,6 +124,15 @@ func (p *Program) VerifyFunc(fc *FuncContract) (res *FuncResult) {
 		key := x.heapKeyPtr(pt)
 		vars[fv.Name()] = &Val{Typ: pt, T: x.sel(x.getHeap(st, key), v.T, x.so.SortOf(pt))}
 	}
+	// captured variables are distinct variables: their storage does not alias
+	for i := range f.FreeVars {
+		for j := 0; j < i; j++ {
+			a, c := env.vals[f.FreeVars[i]], env.vals[f.FreeVars[j]]
+			if a != nil && c != nil && a.T != nil && c.T != nil && a.T.Sort == c.T.Sort {
+				x.axiom(x.b.Not(x.b.Eq(a.T, c.T)))
+			}
+		}
+	}
 	// a closure's contract may name variables of the enclosing function; if the
 	// closure does not capture one of them (any more) it is an arbitrary value
 	if par := f.Parent(); par != nil {
@@ -426,6 +435,67 @@ func (r *FuncResult) SMTTextWith(o *Obligation, extra []*smt.Term, filter bool) 
 			}
 		}
 		hyps = kept
+	}
+	if len(x.hintDiv) > 0 {
+		// a division hint is only useful if the quotient it talks about occurs in
+		// the query; otherwise it is dead weight of nonlinear arithmetic
+		reach := map[int]bool{}
+		var walk func(t *smt.Term)
+		walk = func(t *smt.Term) {
+			if reach[t.ID] {
+				return
+			}
+			reach[t.ID] = true
+			for _, a := range t.Args {
+				walk(a)
+			}
+		}
+		walk(goal)
+		for _, e := range extra {
+			walk(e)
+		}
+		for _, h := range hyps {
+			if _, isHint := x.hintDiv[h.ID]; !isHint {
+				walk(h)
+			}
+		}
+		var kept []*smt.Term
+		for _, h := range hyps {
+			if d, isHint := x.hintDiv[h.ID]; isHint && !reach[d] {
+				continue
+			}
+			kept = append(kept, h)
+		}
+		hyps = kept
+	}
+	// trigger seeding: a goal reads rd(store(A, ..), off, i) where quantified
+	// hypotheses are triggered by rd(A, off, i); state the (valid) instance of
+	// the rd axiom for the base arrays so that those terms exist
+	{
+		seen := map[int]bool{}
+		var seeds []*smt.Term
+		var walk func(t *smt.Term)
+		walk = func(t *smt.Term) {
+			if seen[t.ID] || t.Bound {
+				return
+			}
+			seen[t.ID] = true
+			if strings.HasPrefix(t.Op, "rd_") && len(t.Args) == 3 {
+				base := t.Args[0]
+				for n := 0; base.Op == "store" && n < 8; n++ {
+					base = base.Args[0]
+					seeds = append(seeds, x.b.Eq(x.b.App(t.Op, t.Sort, base, t.Args[1], t.Args[2]),
+						x.b.App("select", t.Sort, base, x.b.Add(t.Args[1], t.Args[2]))))
+				}
+			}
+			for _, a := range t.Args {
+				walk(a)
+			}
+		}
+		walk(goal)
+		if len(seeds) <= 32 {
+			hyps = append(hyps, seeds...)
+		}
 	}
 	roots := append(hyps, extra...)
 	// real model: skolem constants of float sort are finite (strictly inside +-Inf)
